@@ -46,3 +46,13 @@ Print Assumptions index_closed_form.
 Print Assumptions index_stable.
 Print Assumptions index_inputs_distinct.
 Print Assumptions issuer_key_commutes.
+
+(** the same at the arithmetic the harness EXECUTES against the code (Model/Derive.v [mulm], [invm] on N; the inverse is
+    the extended-Euclid loop of Base/Zq.v), for every prime group order q: removing the client blind bc from the
+    issuer-blinded request key exponent bo * (bc * d) leaves bo * d *)
+From Coq Require Import ZArith NArith Znumtheory.
+From PatVerif Require Import Model.Derive Proofs.ZqP.
+Theorem index_exponent_executed : forall q d bc bo, prime (Z.of_N q) -> (bc mod q <> 0)%N ->
+  mulm q (invm q bc) (mulm q bo (mulm q bc d)) = mulm q bo d.
+Proof. exact exec_index_exponent. Qed.
+Print Assumptions index_exponent_executed.
